@@ -49,7 +49,8 @@ def _chunk(args):
             if res["violations"]:
                 out["violations"].append({"index": i, "seed": seed, "cfg": res["cfg"], "steps": res["steps"],
                                           "violations": res["violations"], "digest": res["digest"]})
-            elif keep_samples and len(out["samples"]) < keep_samples and kernel.nontrivial(cls, res, focus):
+            elif keep_samples and len(out["samples"]) < keep_samples and (
+                    kernel.nontrivial(cls, res, focus) or i == hi - 1):
                 out["samples"].append({"run_index": i, "seed": seed, "steps": res["steps"],
                                        "outcomes": res["outcomes"]})
         return out
@@ -81,7 +82,7 @@ def run_batch(world, focus, batch_seed, n_runs=None, wall_s=None, workers=None, 
             if wall_s is not None and time.time() - t0 > wall_s:
                 return False
             hi = next_lo + CHUNK if end is None else min(end, next_lo + CHUNK)
-            keep = 2 if next_lo == start_index else 0
+            keep = 2
             pending.add(ex.submit(_chunk, (world, focus, batch_seed, next_lo, hi, keep)))
             next_lo = hi
             return True
@@ -109,6 +110,8 @@ def run_batch(world, focus, batch_seed, n_runs=None, wall_s=None, workers=None, 
             agg["sim_seconds"] += out["sim_seconds"]
             agg["notes"].extend(out["notes"][: max(0, 10 - len(agg["notes"]))])
             agg["samples"].extend(out["samples"])
+            agg["samples"].sort(key=lambda x: x["run_index"])
+            del agg["samples"][3:]
             for v in out["violations"]:
                 agg["violations"].append(v)
                 mine = [x for x in v["violations"] if x["property"] == focus]
